@@ -18,7 +18,7 @@ Tree grammar (driver input, one tree per line):  <n> line*n   with
   FR =<name> <legacy 0|1> | FB =<name> =<input> | FL =<name> =<input> =<table> | A =<name> =<target>
   I =<dir/dir> =<prefix token> =<suffix> <n> line*n
 """
-import sys, os, json, hashlib, shutil
+import sys, os, json, hashlib, shutil, re
 sys.path.insert(0, os.path.join(os.path.dirname(os.path.abspath(__file__)), "..", "bin"))
 import vlib
 
@@ -33,6 +33,7 @@ K_INDEX = "buildcode/qualified-INDEX-without-affixes"
 K_DOTNS = "include/null-namespace-tag-then-nested-namespace"
 K_API_RENAME = "api/alter-affixes-fragment-namespace-rename-only-entry-names"
 K_DOTNAME = "entry-list/leading-dot-name-missorted"
+K_UPD_REPR = "api/alter-affixes-repr-like-name-sliced-as-suffix"
 K_NSCRASH = "api/fragment-namespace-crash-parent-suffix"
 K_ARM = "include/endian-arm-flag-not-inherited"
 K_API_STALE = "api/alias-chain-stale-after-forward-target-added"
@@ -632,6 +633,20 @@ def fixed_witnesses(chk, exe, root):
     elif "E =M.f1S " not in out:
         chk.violation("api/fragment-namespace-nested", "gd_fragment_namespace(D, 2, \"M\") below a suffixed parent does not give M.f1S: " + out[:300],
                       {"kind": "impl-vs-spec", "script": script}, found=True)
+    # (c) gd_alter_affixes on a fragment whose sub-fragment defines a one-letter r/i/m/a name below a namespace
+    d = os.path.join(root, "wc")
+    os.makedirs(d)
+    open(os.path.join(d, "inc1.fmt"), "w").write("/INCLUDE inc2.fmt A.\n")
+    open(os.path.join(d, "inc2.fmt"), "w").write("m RAW UINT16 1\nq RAW UINT16 1\n")
+    script = "NEW\t%s\nENC\t1\t0\nINC\tinc1.fmt\t-\t-\t0\nAFFIX\t1\tZ\t-\n" % d
+    open(d + ".script", "w").write(script)
+    rc, out = vlib.sh([exe], inp=("@%s.script\n" % d).encode(), timeout=120)
+    if "E =ZA.m " in out and "E =A.Zq " in out:
+        chk.violation(K_UPD_REPR, "gd_alter_affixes(D, 1, \"Z\", NULL): field m of namespace A becomes ZA.m (its sibling q becomes A.Zq as the parser would name it)",
+                      {"kind": "impl-vs-spec", "script": script, "files": {"inc1.fmt": "/INCLUDE inc2.fmt A.\n", "inc2.fmt": "m RAW UINT16 1\nq RAW UINT16 1\n"}}, found=True)
+    elif not ("E =A.Zm " in out and "E =A.Zq " in out):
+        chk.violation("api/alter-affixes-nested-namespace", "gd_alter_affixes(D, 1, \"Z\", NULL) below namespace A gives neither A.Zm/A.Zq nor the recorded ZA.m: " + out[:400],
+                      {"kind": "impl-vs-spec", "script": script}, found=True)
     # (b) /ENDIAN big arm: the arm token is part of the directive, which has fragment scope
     d = os.path.join(root, "wb")
     os.makedirs(d)
@@ -875,6 +890,19 @@ def main():
                 and name_level(ib, fi) != name_level(sb, fi)):
             # NOT the recorded finding: that one leaves input codes, alias targets and sub-fragment records stale,
             # but every entry NAME (with fragment, kind, hidden flag, RAW file, LINTERP table) is the parser's
+            di = sorted(set(name_level(ib, fi)) - set(name_level(sb, fi)))
+            ds = sorted(set(name_level(sb, fi)) - set(name_level(ib, fi)))
+            rl = lambda ln: ln.startswith("E =") and re.search(r"\.[rima]$", ln.split()[1][1:].split("/")[0]) is not None
+            if (di and all(rl(x) for x in di) and all(x.startswith(("E =", "G =")) for x in ds)
+                    and len([x for x in ds if x.startswith("E =")]) == len(di)
+                    and len([x for x in ds if x.startswith("G =")]) <= len([x for x in di if " kind=R " in x])):
+                # the only wrong names are one-letter r/i/m/a names below a namespace: _GD_UpdateCode slices names with
+                # _GD_CodeOffsets without GD_CO_NAME, so ".m" is taken for a representation suffix (recorded finding)
+                chk.violation(K_UPD_REPR, "after %s the entries %s should be %s (one-letter name sliced as a representation suffix)" % (
+                    post[0].replace("\t", " "), di[:4], ds[:4]), dict(replay, kind="impl-vs-spec"), found=True)
+                confirmed.add(K_UPD_REPR)
+                stat["deviations"] += 1
+                continue
             chk.violation("api/alter-affixes-entry-names", "after %s the entry names / fragments of tree %s are %s; parsing the equivalent format files gives %s" % (
                 post[0].replace("\t", " "), ser_tree(t)[:200], sorted(set(name_level(ib, fi)) - set(name_level(sb, fi)))[:6],
                 sorted(set(name_level(sb, fi)) - set(name_level(ib, fi)))[:6]), dict(replay, kind="impl-vs-spec"), found=True)
